@@ -11,7 +11,7 @@ import itertools
 import json
 import os
 
-from vf import core, domain, env, sched
+from vf import core, domain, env, procs, sched
 
 ID = "C09"
 LEVEL = "exploration"
@@ -49,7 +49,13 @@ SCENARIOS = {
     "provenance": [[["outer", "k1"]], [["nest", "k1"]]],
     # an automatically versioned function whose helper is defined below it: the first calls refresh its version
     "auto_version": [[["autov", "k1"]], [["autov", "k1"]]],
+    # an automatically versioned function with two memento functions beneath it, called by two threads with different
+    # arguments (nothing makes one wait for the other); every run in a process of its own, see FRESH_PROCESS
+    "auto_two_deps": [[["autoboth", "k1"]], [["autoboth", "k2"]]],
 }
+# scenarios whose runs each get a newly forked process: whatever the library builds lazily per process (tables filled at
+# the first nested call, versions refreshed at the first query) is built while the threads run, in every run
+FRESH_PROCESS = {"auto_two_deps"}
 STORES = ["cold", "warm_store", "warm_cache"]
 BUDGETS = {"4KiB": 4 * env.KIB, "16MiB": 16}
 CHUNK = 300
@@ -65,7 +71,7 @@ def cases(tier, seed):
     quick_sys = {(s, st, "4KiB") for s in list(SCENARIOS)[:6] for st in ("cold", "warm_store")} | {
         ("same_key", "warm_cache", "4KiB"), ("diff_keys", "cold", "16MiB"), ("batch", "warm_store", "16MiB"),
         ("same_key", "cold_mem", "16MiB"), ("nested", "cold_mem", "16MiB"), ("batch", "cold_mem", "16MiB"),
-        ("auto_version", "cold", "16MiB")}
+        ("auto_version", "cold", "16MiB"), ("auto_two_deps", "cold", "16MiB")}
     for ci, (s, st, b) in enumerate(cfgs):
         n = len(SCENARIOS[s])
         if tier == "thorough" or (s, st, b) in quick_sys:
@@ -123,6 +129,8 @@ def expected_op(op):
         return [t[op[1]], 1]
     if op[0] == "outer":
         return [t[op[1]], [t[op[1]], 1]]
+    if op[0] == "autoboth":
+        return [t[op[1]], t[op[1]]]
     if op[0] == "produce.ignore_result":
         return None
     return t[op[1]]
@@ -139,6 +147,8 @@ def entries_of(scenario):
                 out |= {("nest", op[1]), ("produce", op[1])}
             elif op[0] == "outer":
                 out |= {("outer", op[1]), ("produce2", op[1]), ("nest", op[1]), ("produce", op[1])}
+            elif op[0] == "autoboth":
+                out |= {("autoboth", op[1]), ("produce", op[1]), ("produce2", op[1])}
             else:
                 out.add((op[0].split(".")[0], op[1]))
     return out
@@ -286,6 +296,39 @@ def controlled_run(root, scenario, store, budget, strategy):
     return s, bad, state
 
 
+class _RunInfo:
+    """What run_case needs to know about a scheduler after a run that happened in a child process."""
+
+    def __init__(self, d):
+        self.trace = [tuple(t) for t in d["trace"]]
+        self.step, self.inconclusive = d["step"], d["inconclusive"]
+
+
+def controlled(root, scenario, store, budget, strategy):
+    if scenario not in FRESH_PROCESS:
+        return controlled_run(root, scenario, store, budget, strategy)
+
+    def child(_):
+        s, bad, state = controlled_run(root, scenario, store, budget, strategy)
+        return {"trace": [list(t) for t in s.trace], "step": s.step, "inconclusive": s.inconclusive,
+                "bad": bad, "state": state}
+
+    d = procs.in_child(child, None, timeout=180)
+    return _RunInfo(d), (None if d["bad"] is None else [tuple(b) for b in d["bad"]]), d["state"]
+
+
+def sequential(sc, scenario, store, budget):
+    if scenario not in FRESH_PROCESS:
+        return sequential_states(sc, scenario, store, budget)
+
+    def child(_):
+        return {"states": sequential_states(sc, scenario, store, budget), "prov": PROV}
+
+    d = procs.in_child(child, None, timeout=180)
+    PROV[:] = d["prov"]
+    return d["states"]
+
+
 def trace_id(s):
     return hashlib.sha1(json.dumps([(a, b, c) for a, b, c, _ in s.trace]).encode()).hexdigest()[:12]
 
@@ -304,11 +347,11 @@ def run_case(case):
             out["viol"].append({"sig": sig, "msg": msg})
 
     with env.Scratch() as sc:
-        seq = sequential_states(sc, scenario, store, budget)
+        seq = sequential(sc, scenario, store, budget)
         runs = []
         if case["kind"] == "systematic":
             first = case["first"]
-            base, bad, _ = controlled_run(sc.path("base"), scenario, store, budget, sched.PreemptAt({}, first))
+            base, bad, _ = controlled(sc.path("base"), scenario, store, budget, sched.PreemptAt({}, first))
             total = base.step
             out["obs"]["yield_points_in_unpreempted_run"] = total if case["lo"] == 0 else 0
             for k in range(max(case["lo"], 1), min(case["hi"], total + 1)):
@@ -328,7 +371,7 @@ def run_case(case):
                     runs.append(("random switches p=%s, seed %d" % (p, j), sched.RandomSwitch(r, p), j))
         else:  # two preemptions, sampled
             rng = core.rng_for(case["seed"], ID, "two", scenario, store, budget, case["rep"])
-            base, bad, _ = controlled_run(sc.path("base"), scenario, store, budget, sched.PreemptAt({}, 0))
+            base, bad, _ = controlled(sc.path("base"), scenario, store, budget, sched.PreemptAt({}, 0))
             for j in range(case["count"]):
                 k1 = rng.randint(1, max(base.step, 2))
                 k2 = rng.randint(k1 + 1, k1 + 60)
@@ -336,7 +379,7 @@ def run_case(case):
                 pts = {k1: ("other", rng.randrange(n - 1)), k2: ("other", rng.randrange(n - 1))}
                 runs.append(("preempt at %s (thread %d starts)" % (pts, first), sched.PreemptAt(pts, first), j))
         for j, (what, strategy, tag) in enumerate(runs):
-            s, bad, state = controlled_run(sc.path("r%d" % j), scenario, store, budget, strategy)
+            s, bad, state = controlled(sc.path("r%d" % j), scenario, store, budget, strategy)
             out["obs"]["controlled_runs"] += 1
             if bad is None:
                 out["obs"]["watchdog_firings"] += 1
